@@ -58,6 +58,8 @@ use std::{
 pub(crate) use substream::Substream;
 
 mod connection;
+#[cfg(litep2p_verif)]
+pub(crate) use connection::verif_c01_tcp;
 mod substream;
 
 pub mod config;
